@@ -1,4 +1,5 @@
 import GwModel.Intro
+import GwModel.GwQuery
 import GwModel.Gen.Facts
 /-! # C14 — Introspection tells the truth about the merged schema
 
@@ -51,5 +52,41 @@ theorem typename_answers_type_name (env : Mono.Env) (tn : String)
     (resolve : String → List (String × Mono.ArgVal) → List Mono.Sel → Option Mono.Val) (alias : String) :
     Intro.walk env tn resolve [.field alias "__typename" [] [] []] [] = [(alias, .str tn)] := by
   simp [Intro.walk, Mono.included, Mono.mergeKey]
+
+/-! ### the gateway's own resolver (`Gq`, the model of `(*Gateway).Query`, tied by L2.gateway-query) -/
+
+/-- **a selection the gateway answers itself is included exactly when every conditional directive lets it in** -/
+theorem included_iff_every_condition_lets_it_in (vars : Gq.Vars) (dirs : List Gq.Dir) :
+    Gq.isIncluded vars dirs = true ↔ ∀ d ∈ dirs, ∀ c, d.cond = some c →
+      (d.name = "skip" → Gq.condition vars c = false) ∧ (d.name = "include" → Gq.condition vars c = true) :=
+  Gq.isIncluded_iff vars dirs
+
+/-- … whatever order the directives are written in -/
+theorem directive_order_is_immaterial (vars : Gq.Vars) {a b : List Gq.Dir} (h : a.Perm b) :
+    Gq.isIncluded vars a = Gq.isIncluded vars b := Gq.isIncluded_perm vars h
+
+/-- `@skip(if: true)` leaves a selection out whatever else it carries (in particular an `@include(if: true)` before it) -/
+theorem skip_true_wins (vars : Gq.Vars) (pre post : List Gq.Dir) (c : Gq.Val) (h : Gq.condition vars c = true) :
+    Gq.isIncluded vars (pre ++ ⟨"skip", some c⟩ :: post) = false := Gq.skip_true_excludes vars pre post c h
+
+/-- **a field is treated alike inside a fragment and outside**: flattening an inline fragment without directives is
+    flattening its selections in its place — inclusion, argument values and dispatch are the field's own -/
+theorem fields_inside_fragments_are_treated_alike (fuel : Nat) (sub rest : List Gq.Sel) (acc : List Gq.FlatField) :
+    Gq.flattenTop (fuel + 1) (.inline [] sub :: rest) acc = Gq.flattenTop fuel rest (Gq.flattenTop fuel sub acc) :=
+  Gq.flattenTop_inline fuel sub rest acc
+
+/-- non-vacuity: `node(id: $id) @include(if: true) @skip(if: $s)` with `s = true` is left out, with `s` missing it
+    is answered with the id the variable holds; `__type(name: $n)` inside a fragment finds the type -/
+def exResolve (_ : String) (args : List (String × Gq.VV)) : Except String String :=
+  match args.lookup "id" with
+  | some (.str s) => .ok s
+  | _ => .error "bad"
+def exEnv : Gq.Env := { types := ["User"], fields := ["node"], resolve := exResolve }
+def exSels : List Gq.Sel :=
+  [.field "a" "node" [("id", .var "id")] [⟨"include", some (.bool true)⟩, ⟨"skip", some (.var "s")⟩] [],
+   .inline [] [.field "t" "__type" [("name", .var "n")] [] []]]
+example :
+    Gq.query exEnv [] [("id", .str "u1"), ("n", .str "User"), ("s", .bool true)] 8 exSels = [("t", .typeFound "User")] ∧
+    Gq.query exEnv [] [("id", .str "u1"), ("n", .str "User")] 8 exSels = [("a", .entity "u1"), ("t", .typeFound "User")] := by decide
 
 end Props.C14
